@@ -1949,7 +1949,18 @@ func (e *CoreExtension) filterSort(value interface{}, args ...interface{}) (inte
 			a := result.Index(i).Interface()
 			b := result.Index(j).Interface()
 
-			// Always sort by string representation for consistency
+			// Numbers are ordered by value
+			av, bv := result.Index(i), result.Index(j)
+			switch {
+			case av.CanInt() && bv.CanInt():
+				return av.Int() < bv.Int()
+			case av.CanUint() && bv.CanUint():
+				return av.Uint() < bv.Uint()
+			case av.CanFloat() && bv.CanFloat():
+				return av.Float() < bv.Float()
+			}
+
+			// Everything else by string representation for consistency
 			return toString(a) < toString(b)
 		})
 
